@@ -81,15 +81,32 @@ def r10_2(ctx):
             r.missing("replacement loop of MarkerString::new")
             return
         lp = lp[0]
+        # the two templates by role: the variables stored in the `regex` and `capture` fields of the
+        # MarkerString that is returned
+        role = {}
+        for p in s.paths(start=lp.exit):
+            if p.end[0] == "ret":
+                for x in walk(p.end[1]):
+                    if x[0] == "agg" and x[1] == MS:
+                        d = dict(x[3])
+                        for fld in ("regex", "capture"):
+                            v = d.get(fld)
+                            if v is not None and v[0] in ("local", "havoc"):
+                                role.setdefault(fld, set()).add(v[1])
+        if any(len(role.get(k, ())) != 1 for k in ("regex", "capture")):
+            r.missing("the template variables stored in MarkerString.regex / .capture: %s" % role)
+            return
+        role = {next(iter(v)): k for k, v in role.items()}
+        byrole = {k: l for l, k in role.items()}
         # both templates start from regex::escape(str)
         init = {}
         for p in s.paths(start=0, stops={lp.next_block}):
             for e in p.events:
-                if e[0] in ("init", "set") and e[2] in ("regex", "capture"):
-                    init[e[2]] = e[3]
+                if e[0] in ("init", "set") and e[1] in role:
+                    init[role[e[1]]] = e[3]
         esc = ("call", "regex::escape", (("param", 1),))
         cap_init = init.get("capture")
-        if cap_init is not None and cap_init[0] == "local" and f.local_name(cap_init[1]) == "regex":
+        if cap_init is not None and cap_init[0] == "local" and cap_init[1] == byrole["regex"]:
             cap_init = init.get("regex")  # `capture = regex.clone()` before any replacement
         r.ob("template:same-escaped-source", init.get("regex") == esc and cap_init == esc, f.site, "regex := %s ; capture := %s" % (show(init.get("regex"), f), show(init.get("capture"), f)))
         # per iteration: both replace marker.format() ; pieces
@@ -100,7 +117,7 @@ def r10_2(ctx):
             reps = [e for e in p.events if e[0] == "call" and e[1] == "str::replace"]
             for e in reps:
                 tgt, pat, val = e[2][0], e[2][1], e[2][2]
-                nm = f.local_name(tgt[1]) if tgt[0] == "local" else None
+                nm = role.get(tgt[1]) if tgt[0] == "local" else None
                 isfmt = pat[0] == "call" and pat[1] == "marker::Marker::format"
                 if nm in okrep and isfmt:
                     okrep[nm] = True
@@ -114,7 +131,7 @@ def r10_2(ctx):
             for e in p.events:
                 if e[0] == "call" and e[1] == "str::replace":
                     tgt, pat, val = e[2][0], e[2][1], e[2][2]
-                    nm = f.local_name(tgt[1]) if tgt[0] == "local" else None
+                    nm = role.get(tgt[1]) if tgt[0] == "local" else None
                     if nm not in ("regex", "capture"):
                         continue
                     n_rep += 1
@@ -149,7 +166,7 @@ def r10_2(ctx):
             if p.end[0] == "ret":
                 for x in walk(p.end[1]):
                     if x[0] == "call" and x[1] == "regex::LazyRegex::new_leaf":
-                        okc = x[2][0][0] == "local" and f.local_name(x[2][0][1]) == "capture" and x[2][1] == ("param", 3)
+                        okc = x[2][0][0] == "local" and x[2][0][1] == byrole["capture"] and x[2][1] == ("param", 3)
         r.ob("template:capture-regex-anchored", okc, f.site, "regex_capture = LazyRegex::new_leaf(capture, ignore_case)")
     ctx.run_rule("R10.2", "matching and capturing templates agree", body, floor=7)
 
@@ -252,7 +269,9 @@ def r10_5(ctx):
         found = {}
         rep = lambda e: mentions(e, lambda x: x[0] == "call" and x[1] == SOD + "::replace")
 
-        def scan(expr, fn):
+        loc = []
+
+        def scan(expr, fn, events):
             for x in walk(expr):
                 if x[0] == "agg" and x[1] in ("api::header_filter::HeaderFilter", "api::body_filter::HTMLBodyFilter", "api::body_filter::TextBodyFilter"):
                     d = dict(x[3])
@@ -260,7 +279,13 @@ def r10_5(ctx):
                     for fld in ("value", "inner_value", "content"):
                         if fld in d:
                             v = d[fld]
-                            ok = rep(v) or (v[0] in ("local", "havoc") and fn.local_name(v[1]) == "value")
+                            ok = rep(v)
+                            if not ok and v[0] in ("local", "havoc"):
+                                # a variable: what it was initialised with on this path
+                                src = [e[3] for e in events if e[0] in ("set", "init") and e[1] == v[1]]
+                                ok = bool(src) and rep(src[0])
+                                if ok and mentions_field(src[0], "target", "api::rule::Rule"):
+                                    loc.append(True)
                             found.setdefault((short, fld), []).append(ok)
         regions = [s.paths()] + [lp.iteration_paths(s) for lp in for_loops(f)]
         for paths in regions:
@@ -268,13 +293,9 @@ def r10_5(ctx):
                 for e in p.events:
                     if e[0] == "call":
                         for a in e[2]:
-                            scan(a, f)
-        # the Location value is built in the named local `value` from replace(target, &variables)
-        loc_ok = False
-        for p in s.paths():
-            for e in p.events:
-                if e[0] in ("set", "init") and e[2] == "value" and rep(e[3]) and mentions_field(e[3], "target", "api::rule::Rule"):
-                    loc_ok = True
+                            scan(a, f, p.events)
+        # the Location value is a variable initialised from replace(target, &variables)
+        loc_ok = bool(loc)
         r.ob("substitution:Location", loc_ok, f.site, "Location value = StaticOrDynamic::replace(rule.target, &variables)")
         for key in (("HeaderFilter", "value"), ("HTMLBodyFilter", "value"), ("HTMLBodyFilter", "inner_value"), ("TextBodyFilter", "content")):
             vals = found.get(key, [])
